@@ -78,6 +78,16 @@ def _client_prog(conn, scen, log, opts, session=None):
         conn.closeSocket = opts["closeSocket"]
     if opts.get("ignoreAbruptClose") is not None:
         conn.ignoreAbruptClose = opts["ignoreAbruptClose"]
+    if opts.get("abort") == "client-after-hs":
+        # the application gives up right away: fatal alert, socket closed
+        from tlslite.messages import Alert
+        from tlslite.constants import AlertDescription, AlertLevel
+        for r in conn._sendMsg(Alert().create(AlertDescription.internal_error,
+                                              AlertLevel.fatal)):
+            yield r
+        conn._shutdown(False)
+        log.append(("aborted",))
+        return
     multi = bool(opts.get("multi_record"))
     for r in _write_parts(conn, MSG1, multi):
         yield r
@@ -93,6 +103,17 @@ def _client_prog(conn, scen, log, opts, session=None):
 
 
 def _server_prog(conn, scen, log, opts, cache=None):
+    if opts.get("abort") == "server-at-start":
+        # a server that refuses at once: plaintext fatal alert, then close
+        sock = conn.sock
+        try:
+            sock.send(b"\x15\x03\x01\x00\x02\x02\x28")
+        except Exception:
+            pass
+        sock.close()
+        log.append(("aborted",))
+        return
+        yield 0     # (generator)
     for r in scen.server_gen(conn, cache=cache):
         yield r
     conn._verif_dead_at_hs = _transport_dead(conn)
@@ -127,6 +148,8 @@ def observe(conn, log, outcome):
     s = conn.session
     return {"log": [tuple(x) for x in log],
             "dead_at_hs": bool(getattr(conn, "_verif_dead_at_hs", False)),
+            "sock_closed": bool(getattr(getattr(conn.sock, "socket",
+                                                conn.sock), "closed", False)),
             "outcome": outcome.sig() if outcome is not None else None,
             "closed": bool(conn.closed),
             "resumable": bool(s.resumable) if s is not None else None}
